@@ -33,6 +33,7 @@ import (
 	"github.com/cloudflare/circl/sign/mldsa/mldsa65"
 	"github.com/cloudflare/circl/sign/mldsa/mldsa87"
 	tssrsa "github.com/cloudflare/circl/tss/rsa"
+	"github.com/cloudflare/circl/xof/k12"
 )
 
 const monReuse = "TestVerifReuse"
@@ -498,6 +499,9 @@ func TestVerifReuse(t *testing.T) {
 				return o
 			})
 		}
+		if i%4 == 0 {
+			k12Independence(r)
+		}
 		// ---- polynomial / secret sharing: constructors copy their arguments
 		for _, g := range []group.Group{group.P256, group.Ristretto255} {
 			cs := []group.Scalar{g.RandomScalar(r), g.RandomScalar(r), g.RandomScalar(r)}
@@ -511,6 +515,38 @@ func TestVerifReuse(t *testing.T) {
 			lib.Case([]byte("polynomial"), y0)
 			if !lib.Eq(y0, y1) {
 				reuseViol("polynomial.New/Coefficient", "aliased-argument-or-result", "before", y0, "after", y1)
+			}
+			// every degree from the constant polynomial up: evaluating hands out a
+			// fresh scalar, overwriting it must not change the polynomial
+			for deg := 0; deg <= 3; deg++ {
+				cd := make([]group.Scalar, deg+1)
+				for j := range cd {
+					cd[j] = g.RandomScalar(r)
+				}
+				pd := polynomial.New(cd)
+				v0, _ := pd.Evaluate(x).MarshalBinary()
+				pd.Evaluate(x).SetUint64(uint64(11 + deg))
+				pd.Coefficient(uint(deg)).SetUint64(3)
+				v1, _ := pd.Evaluate(x).MarshalBinary()
+				lib.Count("reuse:polynomial-result-overwritten")
+				if !lib.Eq(v0, v1) {
+					reuseViol("polynomial.Evaluate", "aliased-argument-or-result", "degree", deg, "before", v0, "after", v1)
+				}
+				// threshold deg sharing: overwriting one share leaves later shares alone
+				sec := g.RandomScalar(r)
+				secb, _ := sec.MarshalBinary()
+				sd := secretsharing.New(lib.NewRng("c11/ss-deg", i*10+deg), uint(deg), sec)
+				first := sd.Share(uint(deg) + 2)
+				for _, sh := range first {
+					sh.Value.SetUint64(1)
+					sh.ID.SetUint64(99)
+				}
+				again := sd.Share(uint(deg) + 2)
+				if rec, err := secretsharing.Recover(uint(deg), again[:deg+1]); err != nil {
+					reuseViol("secretsharing", "recover-failed", "err", err)
+				} else if rb, _ := rec.MarshalBinary(); !lib.Eq(rb, secb) {
+					reuseViol("secretsharing.Share", "aliased-argument-or-result", "threshold", deg, "secret", secb, "recovered", rb)
+				}
 			}
 			secret := g.RandomScalar(r)
 			sb, _ := secret.MarshalBinary()
@@ -530,6 +566,51 @@ func TestVerifReuse(t *testing.T) {
 			if !lib.Eq(rb, sb) {
 				reuseViol("secretsharing.New/Share", "aliased-argument-or-result", "secret", sb, "recovered", rb)
 			}
+		}
+	}
+}
+
+// k12Independence: a cloned KangarooTwelve state and its original are
+// independent objects whatever has been absorbed (more than one 8192-byte
+// chunk puts data into the lane buffer of the parallel back-ends): after
+// diverging writes each one returns the digest of its own input, equal to a
+// fresh state fed the same bytes; Reset makes a used state equal to a fresh one.
+func k12Independence(r *lib.Rng) {
+	sum := func(parts ...[]byte) []byte {
+		h := k12.NewDraft10([]byte("c11"))
+		for _, p := range parts {
+			_, _ = h.Write(p)
+		}
+		out := make([]byte, 32)
+		_, _ = h.Read(out)
+		return out
+	}
+	for _, n := range []int{0, 100, 8192, 8193, 9000, 3*8192 + 17, 5*8192 - 1, 9 * 8192} {
+		prefix := r.Bytes(n)
+		a, b := r.Bytes(1+r.Intn(20000)), r.Bytes(1+r.Intn(20000))
+		h := k12.NewDraft10([]byte("c11"))
+		_, _ = h.Write(prefix)
+		c := h.Clone()
+		_, _ = h.Write(a)
+		_, _ = c.Write(b)
+		outH, outC := make([]byte, 32), make([]byte, 32)
+		_, _ = h.Read(outH)
+		_, _ = c.Read(outC)
+		lib.Case([]byte("k12-clone"), prefix[:min(len(prefix), 16)], a[:1], b[:1])
+		lib.Count("reuse:k12-clone-diverged")
+		if !lib.Eq(outH, sum(prefix, a)) || !lib.Eq(outC, sum(prefix, b)) {
+			reuseViol("k12.State.Clone", "clone-not-independent", "prefix_len", n, "original_ok", lib.Eq(outH, sum(prefix, a)), "clone_ok", lib.Eq(outC, sum(prefix, b)))
+		}
+		// an abandoned state (no Read) is reset and re-used
+		u := k12.NewDraft10([]byte("c11"))
+		_, _ = u.Write(prefix)
+		_, _ = u.Write(a[:len(a)/2])
+		u.Reset()
+		_, _ = u.Write(b)
+		outU := make([]byte, 32)
+		_, _ = u.Read(outU)
+		if !lib.Eq(outU, sum(b)) {
+			reuseViol("k12.State.Reset", "stale-state-after-reset", "abandoned_len", n+len(a)/2, "new_len", len(b))
 		}
 	}
 }
